@@ -6,14 +6,16 @@ run on the same inputs (negatives, zeros, NaN, +-inf, ties at the tolerance) as 
 The form of the tolerance test (`err > prec` vs `!(err <= prec)`, Mixed `prec*vb` vs `prec*|vb|`) is a parameter of
 the model; which form /repo implements is decided by the runs, and selects the theorem file."""
 import math, os, re
+from fractions import Fraction
 from vlib import guarded_main
 
 TFELCHECK = ["tfel-check/src/%s.cxx" % n for n in (
     "AbsoluteComparison", "RelativeComparison", "RelativeAndAbsoluteComparison", "MixedComparison", "AreaComparison",
-    "Comparison", "Column", "Interpolation", "NoInterpolation", "LinearInterpolation", "Linearization")]
+    "Comparison", "Column", "Interpolation", "NoInterpolation", "LinearInterpolation", "Linearization",
+    "SplineInterpolation")]
 MTEST = ["mtest/src/AnalyticalTest.cxx", "mtest/src/ReferenceFileComparisonTest.cxx", "mtest/src/Evolution.cxx",
          "mtest/src/TextDataUtilities.cxx", "mtest/src/CurrentState.cxx"]
-UTIL = ["src/Utilities/TextData.cxx", "src/Utilities/StringAlgorithms.cxx"]
+UTIL = ["src/Utilities/TextData.cxx", "src/Utilities/StringAlgorithms.cxx", "src/Math/CubicSpline.cxx"]
 LIBS = ["-lTFELMTest", "-lTFELMathParser", "-lTFELMathKriging", "-lTFELMath", "-lTFELUtilities", "-lTFELException",
         "-lTFELTests", "-lTFELSystem", "-lMFrontLogStream"]
 
@@ -154,13 +156,19 @@ CORPUS_CMP += [("mixed", 0.125, 0.0, [(-10.0, -10.0)]), ("mixed", 0.125, 0.0, [(
 
 
 def gen_area(rng):
+    """(interpolation, prec, tA, vA, tB, vB): any grids (sub/super grids, duplicates, 15% unordered), special values;
+    tied bit-exactly with the model (interpolation none and linear; abscissas are never NaN: std::map keys)"""
     n = rng.randint(1, 6)
     t = [float(rng.randint(-3, 3))]
     for _ in range(n - 1):
         t.append(t[-1] + rng.choice([0.0, 0.5, 1.0, 1.0, 2.5, 1e-3]))
     if rng.random() < 0.15:
         rng.shuffle(t)
-    vA = [rnd_value(rng) if rng.random() < 0.3 else float(rng.randint(-4, 9)) for _ in t]
+    neg = rng.random() < 0.3                         # curves below zero (reference maximum <= 0)
+    def val():
+        x = rnd_value(rng) if rng.random() < 0.25 else float(rng.randint(-4, 9))
+        return -abs(x) if neg else x
+    vA = [val() for _ in t]
     u = rng.random()
     if u < 0.5:
         tB = list(t)
@@ -168,22 +176,116 @@ def gen_area(rng):
         tB = [x for x in t if rng.random() < 0.7] or [t[0]]
     else:
         tB = sorted(set(t + [rng.choice(t) + rng.choice([-0.25, 0.25, 7.0])]))
-    if len(tB) == len(t) and rng.random() < 0.5:
-        vB = list(vA) if rng.random() < 0.5 else [v + rng.choice([0.0, 1e-3, -0.5, 2.0]) for v in vA]
+    if len(tB) == len(t) and rng.random() < 0.6:
+        vB = list(vA) if rng.random() < 0.4 else [v + rng.choice([0.0, 1e-3, -0.5, 2.0, -100.0]) for v in vA]
     else:
-        vB = [float(rng.randint(-4, 9)) for _ in tB]
-    return (rnd_tol(rng), t, vA, tB, vB)
+        vB = [val() if rng.random() < 0.3 else float(rng.randint(-4, 9)) * (-1 if neg else 1) for _ in tB]
+    return (rng.choice(["none", "linear"]), rnd_tol(rng), t, vA, tB, vB)
 
 
-CORPUS_AREA = [(1e-3, [0.0, 1.0, 2.0], [1.0, 2.0, 3.0], [0.0, 1.0, 2.0], [1.0, 2.0, 3.0]),
-               (1e-3, [0.0, 1.0, 2.0], [1.0, 2.0, 3.0], [0.0, 1.0, 2.0], [1.0, 2.5, 3.0]),
-               (1e-3, [0.0, 1.0, 2.0], [0.0, 0.0, 0.0], [0.0, 1.0, 2.0], [0.0, 0.0, 0.0]),
-               (1e-3, [0.0, 1.0, 2.0], [-1.0, -2.0, -3.0], [0.0, 1.0, 2.0], [-1.0, -2.0, -3.0]),
-               (1e-3, [0.0, 1.0], [-1.0, -1.0], [0.0, 1.0], [-100.0, -100.0]),
-               (1e-3, [0.0, 1.0, 2.0], [1.0, NAN, 3.0], [0.0, 1.0, 2.0], [1.0, 2.0, 3.0]),
-               (1e-3, [2.0, 1.0], [1.0, 2.0], [2.0, 1.0], [1.0, 2.0]),
-               (1e-3, [0.0, 1.0, 2.0], [1.0, 2.0, 3.0], [0.0, 2.0], [1.0, 3.0]),
-               (1e-3, [0.0], [1.0], [0.0], [1.0])]
+def gen_area_interp(rng, kind):
+    """two finite curves on strictly increasing grids with the same end points and different interior points:
+    the real code (linear / spline interpolation) is compared with an exact rational oracle"""
+    n = rng.randint(2, 7)
+    tA = [float(rng.randint(-3, 3))]
+    for _ in range(n - 1):
+        tA.append(tA[-1] + rng.choice([0.25, 0.5, 1.0, 1.0, 2.5]))
+    inner = [x for x in tA[1:-1] if rng.random() < 0.6]
+    for _ in range(rng.randint(0, 3)):
+        inner.append(tA[0] + (tA[-1] - tA[0]) * rng.choice([0.125, 0.25, 0.375, 0.5, 0.625, 0.75, 0.875]))
+    tB = sorted(set([tA[0]] + inner + [tA[-1]]))
+    sign = -1.0 if rng.random() < 0.35 else 1.0
+    vA = [sign * rng.randint(1, 40) / 4.0 for _ in tA]
+    if rng.random() < 0.15:
+        vA = [0.0 for _ in tA]
+    fA = interp_fun(kind, tA, vA)
+    d = rng.choice([0.0, 0.0, 1e-4, 1e-2, 0.5, 30.0])
+    vB = [float(fA(Fraction(x))) + d * rng.choice([-1, 0, 1]) for x in tB]
+    prec = rng.choice([1e-6, 1e-3, 1e-2, 0.1, 1.0])
+    return (kind, prec, tA, vA, tB, vB)
+
+
+def interp_fun(kind, ts, vs):
+    """independent interpolation of (ts, vs), exact rational arithmetic: piecewise linear / natural cubic spline"""
+    x = [Fraction(t) for t in ts]
+    y = [Fraction(v) for v in vs]
+    n = len(x) - 1
+    if n == 0:
+        return lambda _: y[0]
+    h = [x[i + 1] - x[i] for i in range(n)]
+    M = [Fraction(0)] * (n + 1)
+    if kind == "spline" and n >= 2:
+        # natural spline: h[i-1] M[i-1] + 2 (h[i-1]+h[i]) M[i] + h[i] M[i+1] = 6 (s[i] - s[i-1]), M[0] = M[n] = 0
+        sl = [(y[i + 1] - y[i]) / h[i] for i in range(n)]
+        a = [Fraction(0)] + [h[i - 1] for i in range(1, n)]
+        b = [Fraction(1)] + [2 * (h[i - 1] + h[i]) for i in range(1, n)]
+        cc = [Fraction(0)] + [h[i] for i in range(1, n)]
+        r = [Fraction(0)] + [6 * (sl[i] - sl[i - 1]) for i in range(1, n)]
+        for i in range(2, n):                         # Thomas algorithm on rows 1..n-1 (M[0] = M[n] = 0)
+            w = a[i] / b[i - 1]
+            b[i] -= w * cc[i - 1]
+            r[i] -= w * r[i - 1]
+        M = [Fraction(0)] * (n + 1)
+        for i in range(n - 1, 0, -1):
+            M[i] = (r[i] - cc[i] * M[i + 1]) / b[i]
+
+    def f(q):
+        if q <= x[0]:
+            return y[0]
+        if q >= x[n]:
+            return y[n]
+        i = max(j for j in range(n) if x[j] <= q)
+        hi = h[i]
+        return (M[i] * (x[i + 1] - q) ** 3 / (6 * hi) + M[i + 1] * (q - x[i]) ** 3 / (6 * hi)
+                + (y[i] / hi - M[i] * hi / 6) * (x[i + 1] - q) + (y[i + 1] / hi - M[i + 1] * hi / 6) * (q - x[i]))
+    return f
+
+
+def exact_norm_area(ts, va, vb, ref=None):
+    """exact normalised area between two finite curves given on the same grid: trapezoidal integral of |a-b| divided
+    by the largest magnitude of the reference column a (`ref`: the column before interpolation); 0 for a null area, None
+    (infinite) for a null reference otherwise"""
+    t = [Fraction(x) for x in ts]
+    d = [abs(Fraction(a) - Fraction(b)) for a, b in zip(va, vb)]
+    ar = sum((t[i + 1] - t[i]) * (d[i + 1] + d[i]) / 2 for i in range(len(t) - 1))
+    m = max(abs(Fraction(a)) for a in (va if ref is None else ref))
+    if ar == 0:
+        return Fraction(0)
+    return None if m == 0 else ar / m
+
+
+def oracle_area(kind, tA, vA, tB, vB):
+    fa, fb = interp_fun(kind, tA, vA), interp_fun(kind, tB, vB)
+    U = sorted(set(tA) | set(tB))
+    return exact_norm_area(U, [fa(Fraction(x)) for x in U], [fb(Fraction(x)) for x in U], vA), max(Fraction(a) for a in vA)
+
+
+CORPUS_AREA = [("none", 1e-3, [0.0, 1.0, 2.0], [1.0, 2.0, 3.0], [0.0, 1.0, 2.0], [1.0, 2.0, 3.0]),
+               ("none", 1e-3, [0.0, 1.0, 2.0], [1.0, 2.0, 3.0], [0.0, 1.0, 2.0], [1.0, 2.5, 3.0]),
+               ("none", 1e-3, [0.0, 1.0, 2.0], [0.0, 0.0, 0.0], [0.0, 1.0, 2.0], [0.0, 0.0, 0.0]),
+               ("none", 1e-3, [0.0, 1.0, 2.0], [0.0, 0.0, 0.0], [0.0, 1.0, 2.0], [0.0, 1e-9, 0.0]),
+               ("none", 1e-3, [0.0, 1.0, 2.0], [-1.0, -2.0, -3.0], [0.0, 1.0, 2.0], [-1.0, -2.0, -3.0]),
+               ("none", 0.0009765625, [0.0, 1.0], [-1.0, -1.0], [0.0, 1.0], [-100.0, -100.0]),
+               ("linear", 0.0009765625, [0.0, 1.0], [-1.0, -1.0], [0.0, 1.0], [-100.0, -100.0]),
+               ("none", 0.0009765625, [0.0, 1.0], [-1.0, -0.0], [0.0, 1.0], [-100.0, -100.0]),
+               ("none", 0.0009765625, [0.0, 1.0], [-3.0, 1.0], [0.0, 1.0], [-3.0, 1.0009765625]),
+               ("none", 0.0009765625, [0.0, 1.0, 2.0], [1.0, NAN, 3.0], [0.0, 1.0, 2.0], [1.0, 2.0, 3.0]),
+               ("none", 0.0009765625, [0.0, 1.0], [1.0, NAN], [0.0, 1.0], [1.0, 2.0]),
+               ("linear", 0.0009765625, [0.0, 1.0], [1.0, 2.0], [0.0, 1.0], [1.0, NAN]),
+               ("none", 0.0009765625, [0.0, 1.0], [1.0, INF], [0.0, 1.0], [1.0, INF]),
+               ("none", 0.0009765625, [0.0, 1.0], [1.0, 2.0], [0.0, 1.0], [1.0, INF]),
+               ("none", 1e-3, [2.0, 1.0], [1.0, 2.0], [2.0, 1.0], [1.0, 2.0]),
+               ("none", 1e-3, [0.0, 1.0, 2.0], [1.0, 2.0, 3.0], [0.0, 2.0], [1.0, 3.0]),
+               ("linear", 1e-3, [0.0, 1.0, 2.0], [1.0, 2.0, 3.0], [0.0, 2.0], [1.0, 3.0]),
+               ("linear", 1e-3, [0.0, 1.0, 2.0], [1.0, 2.5, 3.0], [0.0, 2.0], [1.0, 3.0]),
+               ("linear", 1e-3, [0.0, 2.0], [1.0, 3.0], [-1.0, 0.5, 3.0], [1.0, 1.5, 3.0]),
+               ("linear", 1e-3, [0.0, 1.0, 1.0, 2.0], [1.0, 2.0, 5.0, 3.0], [0.0, 0.5, 2.0], [1.0, 1.5, 3.0]),
+               ("linear", 1e-3, [0.0, -0.0, 2.0], [1.0, 7.0, 3.0], [-0.0, 0.5, 2.0], [1.0, 1.5, 3.0]),
+               ("none", 1e-3, [0.0], [1.0], [0.0], [1.0])]
+CORPUS_AREA_INTERP = [("linear", 1e-3, [0.0, 1.0, 2.0], [1.0, 2.0, 3.0], [0.0, 0.5, 2.0], [1.0, 1.5, 3.0]),
+                      ("spline", 1e-3, [0.0, 1.0, 2.0, 3.0], [1.0, 2.0, 0.0, 3.0], [0.0, 0.5, 1.5, 3.0], [1.0, 1.5, 1.0, 3.0]),
+                      ("spline", 1e-3, [0.0, 1.0, 2.0, 3.0], [-1.0, -2.0, -1.0, -3.0], [0.0, 1.5, 3.0], [-100.0, -100.0, -100.0]),
+                      ("linear", 1e-3, [0.0, 1.0, 2.0, 3.0], [-1.0, -2.0, -1.0, -3.0], [0.0, 1.5, 3.0], [-100.0, -100.0, -100.0])]
 
 
 def gen_ana(rng):
@@ -228,6 +330,7 @@ CORPUS_ANA = [(0.0009765625, [(1.0, 1.0), (2.0, 2.0009765625)]), (0.0009765625, 
               (NAN, [(1.0, 5.0)]), (INF, [(1.0, 5.0)])]
 
 VARIANTS2 = ["TolGt", "TolNotLe"]
+VARIANTS_AREA = [("TolGt", "NormMax"), ("TolGt", "NormAbsMax"), ("TolNotLe", "NormMax"), ("TolNotLe", "NormAbsMax")]
 VARIANTS_MIXED = [("TolGt", "MixSigned"), ("TolGt", "MixAbs"), ("TolNotLe", "MixSigned"), ("TolNotLe", "MixAbs")]
 COQ_FN = {"absolute": ("absolute", "absolute_row_fails"), "relative": ("relative", "relative_row_fails"),
           "relabs": ("relabs", "relabs_row_fails"), "mixed": ("mixed", "mixed_row_fails")}
@@ -255,7 +358,12 @@ def main(c):
     cmp_cases = list(CORPUS_CMP)
     for k in ("absolute", "relative", "relabs", "mixed"):
         cmp_cases += [gen_cmp(rng, k) for _ in range(N)]
-    area_cases = list(CORPUS_AREA) + [gen_area(rng) for _ in range(c.pick(200, 1500))]
+    area_cases = list(CORPUS_AREA) + [gen_area(rng) for _ in range(c.pick(260, 2000))]
+    # interpolated variants with an exact oracle: the linear ones are also tied to the model, the spline ones are not modelled
+    n_tied_only = len(area_cases)
+    lin_cases = [x for x in CORPUS_AREA_INTERP if x[0] == "linear"] + [gen_area_interp(rng, "linear") for _ in range(c.pick(80, 600))]
+    spline_cases = [x for x in CORPUS_AREA_INTERP if x[0] == "spline"] + [gen_area_interp(rng, "spline") for _ in range(c.pick(80, 600))]
+    area_cases += lin_cases
     ana_cases = list(CORPUS_ANA) + [gen_ana(rng) for _ in range(c.pick(200, 1500))]
     ref_cases = list(CORPUS_REF) + [gen_ref(rng) for _ in range(c.pick(200, 1500))]
 
@@ -263,9 +371,9 @@ def main(c):
     lines = []
     for (k, p, p2, rows) in cmp_cases:
         lines.append("CMP %s %s %s %d %s" % (k, cstr(p), cstr(p2), len(rows), " ".join(cstr(a) + " " + cstr(b) for a, b in rows)))
-    for (p, tA, vA, tB, vB) in area_cases:
-        lines.append("AREA none %s %d %s %s %d %s %s" % (cstr(p), len(tA), " ".join(map(cstr, tA)), " ".join(map(cstr, vA)),
-                                                          len(tB), " ".join(map(cstr, tB)), " ".join(map(cstr, vB))))
+    for (it, p, tA, vA, tB, vB) in area_cases + spline_cases:
+        lines.append("AREA %s %s %d %s %s %d %s %s" % (it, cstr(p), len(tA), " ".join(map(cstr, tA)), " ".join(map(cstr, vA)),
+                                                        len(tB), " ".join(map(cstr, tB)), " ".join(map(cstr, vB))))
     for (eps, rows) in ana_cases:
         lines.append("ANA %s %d %s" % (cstr(eps), len(rows), " ".join(cstr(a) + " " + cstr(b) for a, b in rows)))
     for (eps, refs, rows) in ref_cases:
@@ -287,6 +395,7 @@ def main(c):
     i0 = 0
     cmp_res = res[i0:i0 + len(cmp_cases)]; i0 += len(cmp_cases)
     area_res = res[i0:i0 + len(area_cases)]; i0 += len(area_cases)
+    spline_res = res[i0:i0 + len(spline_cases)]; i0 += len(spline_cases)
     ana_res = res[i0:i0 + len(ana_cases)]; i0 += len(ana_cases)
     ref_res = res[i0:i0 + len(ref_cases)]; i0 += len(ref_cases)
     file_res = res[i0:]
@@ -301,8 +410,10 @@ def main(c):
         else:
             items = ["b2n (%s %s %s R); nfailed (%s %s %s) R" % (fn, a, args, rf, a, args) for a in VARIANTS2]
         v.append("Eval vm_compute in (let R := %s in [%s]%%nat)." % (coqrows(rows), "; ".join(items)))
-    for (p, tA, vA, tB, vB) in area_cases:
-        v.append("Eval vm_compute in [ob2n (area TolGt no_interp %s %s %s %s %s)]%%nat." % (coqf(p), coql(tA), coql(vA), coql(tB), coql(vB)))
+    for (it, p, tA, vA, tB, vB) in area_cases:
+        v.append("Eval vm_compute in (let f := fun k nk => ob2n (area_g k nk %s %s %s %s %s %s) in [%s]%%nat)." % (
+            {"none": "none_mk", "linear": "linear_mk"}[it], coqf(p), coql(tA), coql(vA), coql(tB), coql(vB),
+            "; ".join("f %s %s" % kv for kv in VARIANTS_AREA)))
     for (eps, rows) in ana_cases:
         v.append("Eval vm_compute in (let R := %s in [out2n (analytical TolGt %s R); out2n (analytical TolNotLe %s R)]%%nat)." % (
             coqrows(rows), coqf(eps), coqf(eps)))
@@ -399,18 +510,107 @@ def main(c):
                         {"fileA": "#t v\\n1 1\\n2 nan\\n3 3", "fileB": "#t v\\n1 1\\n2 2\\n3 3", "column": 2, "real": line}, True) is False:
                 findings.add("F15:%s:nan-row-passes" % k)
     # ---------------------------------------------------------------- Area
+    def area_key(case):
+        it, p, tA, vA, tB, vB = case
+        return "area:%s:%s:%s" % (it, cstr(p), ",".join(map(cstr, tA + vA + [9e99] + tB + vB)))
+
+    def area_replay(case, line):
+        it, p, tA, vA, tB, vB = case
+        return {"interpolation": it, "prec": cstr(p), "tA": tA, "vA": list(map(cstr, vA)), "tB": tB, "vB": list(map(cstr, vB)), "real": line,
+                "how": "echo 'AREA %s <prec> <nA> tA.. vA.. <nB> tB.. vB..' | driver (props/C51/driver.cxx)" % it}
+
+    def area_real(line):
+        return 2 if line.startswith("X") else int(line.split()[1])
+
+    a_mism = {vv: [] for vv in VARIANTS_AREA}
     for idx, (case, line, mm) in enumerate(zip(area_cases, area_res, m_area)):
-        p, tA, vA, tB, vB = case
-        c.count(1, ("area", cstr(p), tuple(map(cstr, tA + vA + tB + vB))), len(tA) > 1)
-        real = 2 if line.startswith("X") else int(line.split()[1])
-        key = "area:%s:%s" % (cstr(p), ",".join(map(cstr, tA + vA + [9e99] + tB + vB)))
-        if real != mm[0]:
-            c.report("tie:" + key, "AreaComparison::compare prec=%r A=(%r,%r) B=(%r,%r) answers '%s', model says %d (0 fail,1 success,2 exception)" % (
-                p, tA, vA, tB, vB, line, mm[0]), {"prec": cstr(p), "tA": tA, "vA": list(map(cstr, vA)), "tB": tB, "vB": list(map(cstr, vB)), "real": line}, True)
-        identical = tA == tB and list(map(cstr, vA)) == list(map(cstr, vB)) and all(tA[i] <= tA[i + 1] for i in range(len(tA) - 1))
-        if identical and not (p < 0) and real != 1:
-            c.report("prop:" + key, "Area comparison of identical curves (ordered abscissas) does not succeed: '%s'" % line,
-                     {"prec": cstr(p), "t": tA, "v": list(map(cstr, vA)), "real": line}, True)
+        real = area_real(line)
+        for vi, vv in enumerate(VARIANTS_AREA):
+            if mm[vi] != real:
+                a_mism[vv].append(idx)
+    a_best = [vv for vv in VARIANTS_AREA if not a_mism[vv]]
+    c.notes.append("area (interpolation none and linear): code agrees bit-exactly with model variant(s) %s" % (a_best,))
+    if not a_best:
+        vv = min(VARIANTS_AREA, key=lambda x: len(a_mism[x]))
+        idx = a_mism[vv][0]
+        case = area_cases[idx]
+        c.report("tie:" + area_key(case), "AreaComparison::compare interpolation=%s prec=%r A=(%r,%r) B=(%r,%r) answers '%s' but every model variant differs "
+                 "(closest %s says %d; 0 fail, 1 success, 2 exception)" % (case + (area_res[idx], vv, m_area[idx][VARIANTS_AREA.index(vv)])),
+                 area_replay(case, area_res[idx]), True)
+    a_tol = a_best[0][0] if a_best else None
+    a_norm = a_best[0][1] if a_best else None
+    area_findings = set()
+
+    def area_report(case, line, what, Emax=None):
+        """a failure of the property itself on the real verdict; known patterns get their stable key"""
+        it, p, tA, vA, tB, vB = case
+        nonfin = any(not fin(x) for x in vA + vB)
+        if nonfin and a_tol == "TolGt":
+            key = "F15:area:nan-passes"
+        elif (not nonfin) and a_norm == "NormMax" and math.copysign(1.0, max(vA)) < 0:
+            key = "area:negative-reference-maximum-passes"
+        else:
+            key = "prop:" + area_key(case)
+            if len(c.violations) >= 4:
+                return
+        if c.report(key, "AreaComparison (interpolation %s, prec=%r) on A=(t=%r, v=%r), B=(t=%r, v=%r): %s (real answer '%s')" % (
+                it, p, tA, vA, tB, vB, what, line), area_replay(case, line), True) is False:
+            area_findings.add(key)
+
+    n_same_grid = 0
+    for idx, (case, line) in enumerate(zip(area_cases, area_res)):
+        it, p, tA, vA, tB, vB = case
+        c.count(1, ("area", it, cstr(p), tuple(map(cstr, tA + vA + tB + vB))), len(tA) > 1)
+        real = area_real(line)
+        if idx % 41 == 0:
+            c.sample({"comparison": "area", "interpolation": it, "prec": cstr(p), "tA": tA, "vA": list(map(cstr, vA)), "tB": tB,
+                      "vB": list(map(cstr, vB)), "real": line, "model[TolGt/NormMax,TolGt/NormAbsMax,TolNotLe/NormMax,TolNotLe/NormAbsMax]": m_area[idx]})
+        # the property, stated independently: two curves on the same ordered grid (no interpolation involved)
+        ordered = all(tA[i] <= tA[i + 1] for i in range(len(tA) - 1))
+        if not (tA == tB and ordered and len(vA) == len(tA) and fin(p)):
+            continue
+        n_same_grid += 1
+        allfin = all(fin(x) for x in vA + vB)
+        identical = list(map(cstr, vA)) == list(map(cstr, vB))
+        if identical and allfin and p >= 0 and real != 1:
+            area_report(case, line, "identical finite curves are rejected")
+        if real == 1 and len(tA) >= 2 and not allfin:
+            area_report(case, line, "success although a compared value is not finite")
+        if real == 1 and allfin:
+            E = exact_norm_area(tA, vA, vB)
+            if E is None or E > Fraction(p) * (1 + Fraction(1, 10 ** 9)) + Fraction(1, 10 ** 290):
+                area_report(case, line, "success although the normalised area between the curves (%s) exceeds the tolerance" % (
+                    "infinite: null reference" if E is None else "%.6g" % float(E)))
+    # interpolated variants (linear: also tied above; spline: not modelled) against the exact rational oracle
+    n_oracle = 0
+    for case, line in list(zip(area_cases[n_tied_only:], area_res[n_tied_only:])) + list(zip(spline_cases, spline_res)):
+        it, p, tA, vA, tB, vB = case
+        if it == "spline":
+            c.count(1, ("area", it, cstr(p), tuple(map(cstr, tA + vA + tB + vB))), True)
+        real = area_real(line)
+        E, mx = oracle_area(it, tA, vA, tB, vB)
+        n_oracle += 1
+        if real == 2:
+            c.report("tie:" + area_key(case), "AreaComparison with %s interpolation threw on strictly increasing finite grids: %s" % (it, line),
+                     area_replay(case, line), True)
+            continue
+        identical = tA == tB and vA == vB
+        if identical and real != 1:
+            area_report(case, line, "identical finite curves are rejected")
+        tolE = 1e-7 * float(E if E is not None else 0) + 1e-11
+        if real == 1 and (E is None or float(E) > p * (1 + 1e-6) + tolE):
+            area_report(case, line, "success although the normalised area between the interpolated curves (%s) exceeds the tolerance" % (
+                "infinite: null reference" if E is None else "%.9g" % float(E)))
+        # the value written in the log, when the normalisation is not in question (positive reference curve)
+        t = line.split()
+        if E is not None and mx > 0 and mx == max(abs(Fraction(a)) for a in vA) and len(t) > 2 and t[2] != "?":
+            got = float(t[2])
+            if not abs(got - float(E)) <= tolE:
+                c.report("tie:value:" + area_key(case), "AreaComparison with %s interpolation logs 'Area error : %s' but the exact normalised area between "
+                         "the interpolated curves is %.15g" % (it, t[2], float(E)), area_replay(case, line), True)
+    c.notes.append("area: %d same-grid cases judged with the exact rational statement of the property, %d interpolated cases (%d spline) "
+                   "compared with the exact rational oracle" % (n_same_grid, n_oracle, len(spline_cases)))
+    findings |= area_findings
     # ---------------------------------------------------------------- MTest tests
     for name, cases, rres, mres in (("analytical", ana_cases, ana_res, m_ana), ("reffile", ref_cases, ref_res, m_ref)):
         mism = {"TolGt": [], "TolNotLe": []}
@@ -448,16 +648,24 @@ def main(c):
 
     c.coverage["rule"] = ("seeded (VERIF_SEED) + fixed corpus; per comparison %d columns of 1-6 rows: 12%% special values (0,-0,NaN,+-inf,+-DBL_MAX,"
                           "denormals), magnitudes 1e-300..1e300, 30%% self-comparison rows, perturbations at 0.25..4 x tolerance, 25%% tolerances "
-                          "set exactly at a row's error (ties), tolerances incl. 0, NaN, inf, negative; Area: %d curve pairs (same/sub/super grids, "
-                          "15%% unordered); MTest tests: %d+%d check sequences incl. out-of-range periods; non-trivial = has a non-finite value or "
-                          "more than one row" % (N, len(area_cases), len(ana_cases), len(ref_cases)))
+                          "set exactly at a row's error (ties), tolerances incl. 0, NaN, inf, negative; Area: %d curve pairs tied to the model (interpolation none/linear; same/sub/super grids, "
+                          "duplicates, 15%% unordered, 30%% curves below zero, special values) of which the same-grid ones are judged by the exact rational "
+                          "statement of the property, + %d linear and %d spline pairs on strictly increasing grids with common end points judged by an "
+                          "exact rational oracle (piecewise linear / natural cubic spline); MTest tests: %d+%d check sequences incl. out-of-range periods; non-trivial = has a non-finite value or "
+                          "more than one row" % (N, len(area_cases), len(lin_cases), len(spline_cases), len(ana_cases), len(ref_cases)))
     c.coverage["traces_validated_against_impl"] = ncases
 
     # ---------------------------------------------------------------- theorems
-    pinned = bool(findings)
-    pf = "Properties_C51_pinned.v" if pinned else "Properties_C51.v"
-    c.notes.append("theorem file: %s (%s)" % (pf, "known findings observed: %s" % sorted(findings) if pinned else "code implements the NaN-safe forms"))
-    r = c.coq(["C51Model.v", "C51Spec.v", "C51Proofs.v", pf], timeout=900)
+    core_findings = findings - area_findings
+    pf = "Properties_C51_pinned.v" if core_findings else "Properties_C51.v"
+    af = "Properties_C51_area_pinned.v" if area_findings else "Properties_C51_area.v"
+    c.notes.append("theorem files: %s (%s), %s (%s)" % (
+        pf, "known findings observed: %s" % sorted(core_findings) if core_findings else "code implements the NaN-safe forms",
+        af, "known findings observed: %s" % sorted(area_findings) if area_findings else "code implements `!(area <= prec)` and the normalisation by the largest magnitude"))
+    if a_best and ((area_findings and a_best[0] != ("TolGt", "NormMax")) or (not area_findings and a_best[0] != ("TolNotLe", "NormAbsMax"))):
+        c.notes.append("area: the code matches the intermediate variant %s: the refuted/positive Area theorems are stated for (TolGt, NormMax) / "
+                       "(TolNotLe, NormAbsMax) only" % (a_best[0],))
+    r = c.coq(["C51Model.v", "C51Spec.v", "C51Proofs.v", "C51AreaProofs.v", pf, af], timeout=900)
     if not r.ok:
         c.coq_failures(r)
 
